@@ -1,26 +1,729 @@
-//! C24: not implemented yet.
+//! C24: LSP compilation scheduling neither hangs nor drops edits.
+//! Monitor (hooks H0 + H4): a token-passing cooperative scheduler drives the REAL ServerState
+//! (real handlers, real worker thread, real compiles of a std-less package): an instrumented
+//! thread may only run between two hook points while it holds the token, and the scheduler
+//! picks the next runner with a seeded strategy, so the recorded event log is a faithful total
+//! order of the accesses to is_compiling / retrigger_compilation / the channel / the Notify.
+//! Liveness is restated as safety at quiescence: (a) nobody is parked in wait_for_parsing and
+//! a fresh wait_for_parsing returns; (b) the last request sent was compiled and not cancelled.
 use crate::common::*;
 use crate::{Plan, Prop};
+use lsp_types::{DidChangeTextDocumentParams, DidOpenTextDocumentParams, TextDocumentContentChangeEvent, TextDocumentItem, Url, VersionedTextDocumentIdentifier};
+use rand::rngs::StdRng;
+use rand::{Rng, SeedableRng};
+use serde_json::{json, Value};
+use std::collections::{BTreeSet, HashMap, VecDeque};
+use std::sync::{Arc, Condvar, Mutex};
+use std::thread::ThreadId;
+use std::time::{Duration, Instant};
+use sway_lsp::handlers::notification;
+use sway_lsp::server_state::ServerState;
+use sway_types::verif_hooks::{Action, Kind};
 
 pub static META: PropertyMeta = PropertyMeta {
     id: "C24",
     level: "exploration",
-    rule: "not implemented",
-    assumptions: &[],
-    floor_evaluations: 1,
-    floor_nontrivial: 2,
-    required_counters: &[],
+    rule: "client scripts of <= 6 events from {didOpen, didChange(v), request waiting for parsing} - changes issued by one sequential editor task, didOpen repeats and waiting requests concurrent - run against a fresh real ServerState under a controlled schedule (seeded random walk over the runnable actors at every hook point); an evaluation = one controlled run to quiescence (+ a probe wait_for_parsing); non-trivial = the run had >= 2 context switches between actors while a compilation was in flight; distinct = the interleaving signature (sequence of (actor, point))",
+    assumptions: &[
+        "interleavings are those of the hooked accesses; code between two hook points is atomic",
+        "tokio's Notify and crossbeam's bounded channel are trusted; their blocking behaviour is modelled (occupancy, parked waiters) to decide who is runnable, and a run in which the model and the real threads disagree is inconclusive",
+        "a violation is reported only if it reproduces when its recorded schedule is replayed",
+    ],
+    floor_evaluations: 200,
+    floor_nontrivial: 50,
+    required_counters: &["runs_reached_quiescence", "compilations_observed", "cancellations_observed", "waiters_parked_and_woken", "probe_waits_returned"],
 };
 
 pub static PROP: Prop = Prop {
     meta: &META,
-    plan: |_t| Plan { nshards: 1, budget_s: 1.0, mem_gib: 0 },
-    shard: |_ctx| {
-        let mut r = ShardResult::default();
-        r.harness_fault = Some("not implemented".into());
-        r
-    },
-    replay: crate::no_replay,
+    plan: |t| Plan { nshards: 16, budget_s: t.pick(55.0, 1200.0), mem_gib: 6 },
+    shard,
+    replay,
     extra: crate::no_extra,
     subcommand: crate::no_subcommand,
 };
+
+// ------------------------------------------------------------------------------------------
+// scheduler
+
+#[derive(Clone, Debug, PartialEq)]
+enum St {
+    Running,
+    AtPoint,
+    Blocked(String),
+    Done,
+}
+
+#[derive(Clone, Debug)]
+struct Ev {
+    actor: usize,
+    point: String,
+    detail: String,
+}
+
+struct Actor {
+    name: String,
+    thread: Option<ThreadId>,
+    st: St,
+}
+
+struct Sched {
+    enabled: bool,
+    actors: Vec<Actor>,
+    token: Option<usize>,
+    log: Vec<Ev>,
+    occupancy: i32,
+    waking: BTreeSet<usize>,
+    rng: StdRng,
+    choices: Vec<usize>,
+    replay: Option<VecDeque<usize>>,
+    diverged: Option<String>,
+    switches_during_compile: u64,
+    compiling: bool,
+    last_runner: Option<usize>,
+}
+
+static SCHED: Mutex<Option<Sched>> = Mutex::new(None);
+static CV: Condvar = Condvar::new();
+
+impl Sched {
+    fn actor_of(&mut self, tid: ThreadId, point: &str) -> Option<usize> {
+        if let Some(i) = self.actors.iter().position(|a| a.thread == Some(tid)) {
+            return Some(i);
+        }
+        if point.starts_with("worker.") || point.starts_with("abort.") {
+            // the worker thread was spawned by ServerState::default before registration
+            if let Some(i) = self.actors.iter().position(|a| a.name == "worker" && a.thread.is_none()) {
+                self.actors[i].thread = Some(tid);
+                return Some(i);
+            }
+        }
+        None
+    }
+
+    fn model_effect(&mut self, actor: usize, point: &str) {
+        match point {
+            "send.sent" => self.occupancy += 1,
+            "worker.got" | "send.drained_one" => self.occupancy -= 1,
+            "worker.compile_begin" => self.compiling = true,
+            "worker.compile_end" => self.compiling = false,
+            "worker.notified" => {
+                for (i, a) in self.actors.iter().enumerate() {
+                    if a.st == St::Blocked("wfp.park".into()) {
+                        self.waking.insert(i);
+                    }
+                }
+            }
+            _ => {}
+        }
+        let _ = actor;
+        // channel state changes make blocked channel users runnable
+        for (i, a) in self.actors.iter().enumerate() {
+            match &a.st {
+                St::Blocked(p) if p == "worker.recv" && self.occupancy > 0 => {
+                    self.waking.insert(i);
+                }
+                St::Blocked(p) if p == "send.before_send" && self.occupancy < 1 => {
+                    self.waking.insert(i);
+                }
+                _ => {}
+            }
+        }
+    }
+
+    fn will_block(&self, point: &str) -> bool {
+        match point {
+            "worker.recv" => self.occupancy <= 0,
+            "send.before_send" => self.occupancy >= 1,
+            _ => true,
+        }
+    }
+
+    /// choose the next runner among the actors waiting at a point (None: nobody runnable)
+    fn pick(&mut self) -> Option<usize> {
+        let cands: Vec<usize> = self.actors.iter().enumerate().filter(|(_, a)| a.st == St::AtPoint).map(|(i, _)| i).collect();
+        if cands.is_empty() {
+            return None;
+        }
+        let k = match self.replay.as_mut().and_then(|r| r.pop_front()) {
+            Some(k) => k.min(cands.len() - 1),
+            None => self.rng.gen_range(0..cands.len()),
+        };
+        self.choices.push(k);
+        let chosen = cands[k];
+        if self.compiling && self.last_runner.is_some() && self.last_runner != Some(chosen) {
+            self.switches_during_compile += 1;
+        }
+        self.last_runner = Some(chosen);
+        Some(chosen)
+    }
+}
+
+/// wait (with the lock held through the condvar) until `me` owns the token
+fn wait_for_token(mut g: std::sync::MutexGuard<'static, Option<Sched>>, me: usize) {
+    let t0 = Instant::now();
+    loop {
+        {
+            let s = g.as_mut().unwrap();
+            if !s.enabled {
+                return;
+            }
+            if s.token == Some(me) {
+                s.actors[me].st = St::Running;
+                return;
+            }
+            if s.token.is_none() {
+                // nobody runs: if threads the model says are waking have not arrived yet, give them time
+                let waiting_for_arrivals = s.waking.iter().any(|w| matches!(s.actors[*w].st, St::Blocked(_)));
+                if !waiting_for_arrivals || t0.elapsed() > Duration::from_millis(1500) {
+                    if waiting_for_arrivals {
+                        s.diverged = Some("a thread the model considers woken did not arrive at its next hook point".into());
+                        s.waking.clear();
+                    }
+                    if let Some(n) = s.pick() {
+                        s.token = Some(n);
+                        CV.notify_all();
+                        continue;
+                    }
+                }
+            }
+        }
+        let (ng, _) = CV.wait_timeout(g, Duration::from_millis(20)).unwrap();
+        g = ng;
+    }
+}
+
+fn callback(kind: Kind, point: &'static str, detail: &str) -> Action {
+    let tid = std::thread::current().id();
+    let mut g = SCHED.lock().unwrap();
+    let Some(s) = g.as_mut() else { return Action::Continue };
+    if !s.enabled {
+        return Action::Continue;
+    }
+    // points of other hook families (dirty-flag files, git fetch) are not scheduling points here
+    if !(point.starts_with("worker.") || point.starts_with("send.") || point.starts_with("wfp.") || point.starts_with("open.") || point.starts_with("abort.")) {
+        return Action::Continue;
+    }
+    let Some(me) = s.actor_of(tid, point) else { return Action::Continue };
+    s.log.push(Ev { actor: me, point: point.to_string(), detail: detail.to_string() });
+    match kind {
+        Kind::Point => {
+            s.model_effect(me, point);
+            s.actors[me].st = St::AtPoint;
+            if s.token == Some(me) {
+                s.token = None;
+            }
+            CV.notify_all();
+            wait_for_token(g, me);
+        }
+        Kind::AboutToBlock => {
+            if s.will_block(point) {
+                s.actors[me].st = St::Blocked(point.to_string());
+                if s.token == Some(me) {
+                    s.token = None;
+                }
+                if let Some(n) = s.pick() {
+                    s.token = Some(n);
+                }
+                CV.notify_all();
+                // return: the thread now really blocks in recv / send / notified().await
+            } else {
+                s.actors[me].st = St::AtPoint;
+                if s.token == Some(me) {
+                    s.token = None;
+                }
+                CV.notify_all();
+                wait_for_token(g, me);
+            }
+        }
+        Kind::Resumed => {
+            s.model_effect(me, point);
+            s.waking.remove(&me);
+            if matches!(s.actors[me].st, St::Blocked(_)) {
+                s.actors[me].st = St::AtPoint;
+                CV.notify_all();
+                wait_for_token(g, me);
+            }
+            // otherwise the operation did not block and the actor still holds the token
+        }
+    }
+    Action::Continue
+}
+
+fn register(name: &str) -> usize {
+    let mut g = SCHED.lock().unwrap();
+    let s = g.as_mut().unwrap();
+    s.actors.push(Actor { name: name.to_string(), thread: Some(std::thread::current().id()), st: St::AtPoint });
+    let me = s.actors.len() - 1;
+    s.log.push(Ev { actor: me, point: "client.start".into(), detail: name.to_string() });
+    CV.notify_all();
+    wait_for_token(g, me);
+    me
+}
+
+fn finish_actor(me: usize) {
+    let mut g = SCHED.lock().unwrap();
+    if let Some(s) = g.as_mut() {
+        s.log.push(Ev { actor: me, point: "client.done".into(), detail: String::new() });
+        s.actors[me].st = St::Done;
+        if s.token == Some(me) {
+            s.token = None;
+            if let Some(n) = s.pick() {
+                s.token = Some(n);
+            }
+        }
+        CV.notify_all();
+    }
+}
+
+// ------------------------------------------------------------------------------------------
+// scripts
+
+#[derive(Clone, Debug, serde::Serialize, serde::Deserialize)]
+pub enum Step {
+    Open,
+    Change,
+    Wait,
+}
+
+#[derive(Clone, Debug, serde::Serialize, serde::Deserialize)]
+pub struct Script {
+    /// the sequential editor task
+    pub editor: Vec<Step>,
+    /// concurrent tasks (each a short list of Open / Wait steps)
+    pub others: Vec<Vec<Step>>,
+}
+
+fn gen_script(rng: &mut StdRng) -> Script {
+    let mut editor = vec![Step::Open];
+    let n = rng.gen_range(1..=4);
+    for _ in 0..n {
+        editor.push(match rng.gen_range(0..10) {
+            0..=6 => Step::Change,
+            7..=8 => Step::Wait,
+            _ => Step::Open,
+        });
+    }
+    let k = rng.gen_range(0..=2);
+    let others = (0..k)
+        .map(|_| {
+            let m = rng.gen_range(1..=2);
+            (0..m).map(|_| if rng.gen_bool(0.75) { Step::Wait } else { Step::Open }).collect()
+        })
+        .collect();
+    Script { editor, others }
+}
+
+struct Project {
+    uri: Url,
+}
+
+fn make_project(dir: &std::path::Path) -> Project {
+    let proj = dir.join("ws").join("proj");
+    let _ = std::fs::remove_dir_all(dir.join("ws"));
+    std::fs::create_dir_all(proj.join("src")).unwrap();
+    std::fs::write(proj.join("Forc.toml"), "[project]\nauthors = [\"verif\"]\nentry = \"main.sw\"\nlicense = \"Apache-2.0\"\nname = \"proj\"\nimplicit-std = false\n\n[dependencies]\n").unwrap();
+    let main = proj.join("src").join("main.sw");
+    std::fs::write(&main, text_for(1)).unwrap();
+    Project { uri: Url::from_file_path(&main).unwrap() }
+}
+
+fn text_for(version: i32) -> String {
+    format!("library;\n\npub fn f() -> u64 {{\n    {version}\n}}\n\npub fn g{version}() -> bool {{\n    true\n}}\n")
+}
+
+fn run_steps(state: &ServerState, uri: &Url, steps: &[Step], version: &Mutex<i32>) {
+    let rt = tokio::runtime::Builder::new_current_thread().enable_all().build().unwrap();
+    for st in steps {
+        match st {
+            Step::Open => {
+                let v = *version.lock().unwrap();
+                let params = DidOpenTextDocumentParams { text_document: TextDocumentItem { uri: uri.clone(), language_id: "sway".into(), version: v, text: text_for(v) } };
+                let _ = rt.block_on(notification::handle_did_open_text_document(state, params));
+            }
+            Step::Change => {
+                let v = {
+                    let mut g = version.lock().unwrap();
+                    *g += 1;
+                    *g
+                };
+                let ch = TextDocumentContentChangeEvent { range: None, range_length: None, text: text_for(v) };
+                let params = DidChangeTextDocumentParams { text_document: VersionedTextDocumentIdentifier { uri: uri.clone(), version: v }, content_changes: vec![ch] };
+                let _ = rt.block_on(notification::handle_did_change_text_document(state, params));
+            }
+            Step::Wait => rt.block_on(state.wait_for_parsing()),
+        }
+    }
+}
+
+// ------------------------------------------------------------------------------------------
+// one controlled run
+
+pub struct RunOut {
+    pub log: Vec<(String, String, String)>,
+    pub choices: Vec<usize>,
+    pub quiescent: bool,
+    pub diverged: Option<String>,
+    pub parked: Vec<String>,
+    pub probe_returned: Option<bool>,
+    pub switches: u64,
+}
+
+fn snapshot_quiescent(s: &Sched) -> bool {
+    s.token.is_none() && s.waking.is_empty() && s.actors.iter().all(|a| matches!(a.st, St::Blocked(_) | St::Done))
+}
+
+fn wait_quiescence(limit: Duration) -> bool {
+    let t0 = Instant::now();
+    let mut stable = 0;
+    loop {
+        {
+            let g = SCHED.lock().unwrap();
+            let s = g.as_ref().unwrap();
+            if snapshot_quiescent(s) {
+                stable += 1;
+                if stable >= 3 {
+                    return true;
+                }
+            } else {
+                stable = 0;
+            }
+        }
+        if t0.elapsed() > limit {
+            return false;
+        }
+        std::thread::sleep(Duration::from_millis(3));
+    }
+}
+
+pub fn controlled_run(dir: &std::path::Path, script: &Script, seed: u64, replay: Option<Vec<usize>>) -> RunOut {
+    let project = make_project(dir);
+    let state = Arc::new(ServerState::default());
+    // give the worker time to reach its first recv (hooks are ignored until the scheduler is enabled)
+    std::thread::sleep(Duration::from_millis(2));
+    {
+        let mut g = SCHED.lock().unwrap();
+        *g = Some(Sched {
+            enabled: true,
+            actors: vec![Actor { name: "worker".into(), thread: None, st: St::Blocked("worker.recv".into()) }],
+            token: None,
+            log: vec![],
+            occupancy: 0,
+            waking: BTreeSet::new(),
+            rng: StdRng::seed_from_u64(seed),
+            choices: vec![],
+            replay: replay.map(VecDeque::from),
+            diverged: None,
+            switches_during_compile: 0,
+            compiling: false,
+            last_runner: None,
+        });
+    }
+    let version = Arc::new(Mutex::new(1));
+    let mut handles = vec![];
+    let mut spawn_actor = |name: String, steps: Vec<Step>| {
+        let st = state.clone();
+        let uri = project.uri.clone();
+        let ver = version.clone();
+        handles.push(std::thread::spawn(move || {
+            let me = register(&name);
+            run_steps(&st, &uri, &steps, &ver);
+            finish_actor(me);
+        }));
+    };
+    // the editor's first step (didOpen) must initialise the workspace before the others use it
+    spawn_actor("editor".into(), script.editor.clone());
+    // others start only after the first open has been issued: they register later
+    std::thread::sleep(Duration::from_millis(1));
+    for (i, o) in script.others.iter().enumerate() {
+        spawn_actor(format!("task{i}"), o.clone());
+    }
+    let quiescent = wait_quiescence(Duration::from_secs(20));
+    // probe: a fresh waiter must return without anything else happening
+    let mut probe_returned = None;
+    if quiescent {
+        let st = state.clone();
+        let h = std::thread::spawn(move || {
+            let me = register("probe");
+            let rt = tokio::runtime::Builder::new_current_thread().enable_all().build().unwrap();
+            rt.block_on(st.wait_for_parsing());
+            finish_actor(me);
+        });
+        handles.push(h);
+        let q2 = wait_quiescence(Duration::from_secs(10));
+        let g = SCHED.lock().unwrap();
+        let s = g.as_ref().unwrap();
+        if q2 {
+            probe_returned = Some(s.actors.iter().any(|a| a.name == "probe" && a.st == St::Done));
+        }
+    }
+    // collect and tear down
+    let (log, choices, diverged, parked, switches) = {
+        let mut g = SCHED.lock().unwrap();
+        let s = g.as_mut().unwrap();
+        s.enabled = false;
+        let names: Vec<String> = s.actors.iter().map(|a| a.name.clone()).collect();
+        let log = s.log.iter().map(|e| (names[e.actor].clone(), e.point.clone(), e.detail.clone())).collect();
+        let parked = s.actors.iter().filter(|a| a.st == St::Blocked("wfp.park".into())).map(|a| a.name.clone()).collect();
+        (log, s.choices.clone(), s.diverged.clone(), parked, s.switches_during_compile)
+    };
+    CV.notify_all();
+    // un-wedge whatever is still parked so that threads can exit: clear the flag and trigger a compile
+    state.is_compiling.store(false, std::sync::atomic::Ordering::SeqCst);
+    {
+        let rt = tokio::runtime::Builder::new_current_thread().enable_all().build().unwrap();
+        let ch = TextDocumentContentChangeEvent { range: None, range_length: None, text: text_for(9999) };
+        let params = DidChangeTextDocumentParams { text_document: VersionedTextDocumentIdentifier { uri: project.uri.clone(), version: 9999 }, content_changes: vec![ch] };
+        let _ = rt.block_on(async { tokio::time::timeout(Duration::from_secs(5), notification::handle_did_change_text_document(&state, params)).await });
+    }
+    let t0 = Instant::now();
+    for h in handles {
+        while !h.is_finished() && t0.elapsed() < Duration::from_secs(3) {
+            state.is_compiling.store(false, std::sync::atomic::Ordering::SeqCst);
+            std::thread::sleep(Duration::from_millis(5));
+        }
+        if h.is_finished() {
+            let _ = h.join();
+        }
+        // a thread that is still parked is leaked (only happens in violating runs)
+    }
+    let _ = state.shutdown_server();
+    *SCHED.lock().unwrap() = None;
+    RunOut { log, choices, quiescent, diverged, parked, probe_returned, switches }
+}
+
+// ------------------------------------------------------------------------------------------
+// offline checker over the event log
+
+pub struct Verdict {
+    pub violations: Vec<(String, String)>,
+    pub compilations: u64,
+    pub cancellations: u64,
+    pub woken: u64,
+    pub early_returns: u64,
+}
+
+pub fn check_log(out: &RunOut) -> Verdict {
+    let log = &out.log;
+    let mut v = Verdict { violations: vec![], compilations: 0, cancellations: 0, woken: 0, early_returns: 0 };
+    v.compilations = log.iter().filter(|e| e.1 == "worker.compile_end").count() as u64;
+    v.woken = log.iter().filter(|e| e.1 == "wfp.woke").count() as u64;
+    // compiles and their cancellation
+    let mut cur: Option<(usize, String)> = None;
+    let mut cancelled_compiles: Vec<(usize, usize, String)> = vec![];
+    let mut finished: Vec<(usize, usize, String, bool)> = vec![];
+    let mut cancelled_now = false;
+    for (i, e) in log.iter().enumerate() {
+        match e.1.as_str() {
+            "worker.compile_begin" => {
+                cur = Some((i, e.2.clone()));
+                cancelled_now = false;
+            }
+            "abort.check" | "abort.check_pkg" if e.2 == "true" && cur.is_some() => cancelled_now = true,
+            "worker.compile_end" => {
+                if let Some((b, ver)) = cur.take() {
+                    finished.push((b, i, ver.clone(), cancelled_now));
+                    if cancelled_now {
+                        v.cancellations += 1;
+                        cancelled_compiles.push((b, i, ver));
+                    }
+                }
+            }
+            _ => {}
+        }
+    }
+    // (a) parked waiters at quiescence
+    if out.quiescent {
+        for name in &out.parked {
+            let evs: Vec<(usize, &(String, String, String))> = log.iter().enumerate().filter(|(_, e)| &e.0 == name).collect();
+            let last_before = evs.iter().rev().find(|(_, e)| e.1 == "wfp.before_notified").map(|(i, _)| *i);
+            let last_park = evs.iter().rev().find(|(_, e)| e.1 == "wfp.park").map(|(i, _)| *i);
+            let last_check = evs.iter().rev().find(|(_, e)| e.1 == "wfp.check").map(|(_, e)| e.2.clone()).unwrap_or_default();
+            let notified_between = match (last_before, last_park) {
+                (Some(a), Some(b)) => log[a..b].iter().any(|e| e.1 == "worker.notified"),
+                _ => false,
+            };
+            let open_after_clear = {
+                let last_clear = log.iter().rposition(|e| e.1 == "worker.cleared_compiling");
+                let last_open_set = log.iter().rposition(|e| e.1 == "open.set_compiling");
+                matches!((last_clear, last_open_set), (Some(c), Some(o)) if o > c) || (last_clear.is_none() && last_open_set.is_some())
+            };
+            let sig = if notified_between {
+                "hang:lost-wakeup: wfp.before_notified(W) < worker.notified < wfp.park(W)".to_string()
+            } else if open_after_clear && last_check.contains("is_compiling=true") {
+                "hang:is_compiling-set-by-did_open-after-the-worker-finished: worker.cleared_compiling < open.set_compiling".to_string()
+            } else {
+                format!("hang:waiter-parked-at-quiescence [{last_check}]")
+            };
+            v.violations.push((sig, format!("{name} is parked in wait_for_parsing although the worker is idle on an empty channel (last check: {last_check})")));
+        }
+        if out.probe_returned == Some(false) && out.parked.iter().all(|p| p == "probe") {
+            let open_after_clear = {
+                let last_clear = log.iter().rposition(|e| e.1 == "worker.cleared_compiling");
+                let last_open_set = log.iter().rposition(|e| e.1 == "open.set_compiling");
+                matches!((last_clear, last_open_set), (Some(c), Some(o)) if o > c)
+            };
+            // (already reported above through `parked` with the probe's name)
+            let _ = open_after_clear;
+        }
+        // (b) the last request sent was compiled without cancellation
+        // (the receiver may log `worker.got` before the sender logs `send.sent`, so the search for
+        // the matching receive starts at the sender's `send.before_send`)
+        let last_send = log.iter().rposition(|e| e.1 == "send.before_send").filter(|ls| log[*ls..].iter().any(|e| e.1 == "send.sent" && e.0 == log[*ls].0));
+        if let Some(ls) = last_send {
+            let ver = log[ls].2.clone();
+            let got = log.iter().enumerate().skip(ls).filter(|(_, e)| e.1 == "worker.got" && e.2 == ver).map(|(i, _)| i).last();
+            match got {
+                None => v.violations.push(("lost-edit:last-request-never-received".into(), format!("the last request sent ({ver}) was never dequeued by the worker"))),
+                Some(gi) => {
+                    let fin = finished.iter().find(|(b, _, _, _)| *b > gi);
+                    match fin {
+                        None => v.violations.push(("lost-edit:last-request-not-compiled".into(), format!("the last request sent ({ver}) was dequeued but no compilation of it completed"))),
+                        Some((b, _, _, true)) => {
+                            // attribute: a retrigger store after the worker's last clear before this compile
+                            let last_clear = log[..*b].iter().rposition(|e| e.1 == "worker.cleared_retrigger");
+                            let stale = log[last_clear.unwrap_or(0)..*b].iter().any(|e| e.1 == "send.set_retrigger");
+                            let late = log[*b..].iter().any(|e| e.1 == "send.set_retrigger");
+                            let sig = if stale {
+                                "lost-edit:stale-retrigger: worker.cleared_retrigger < send.set_retrigger(S) < worker.got(latest) ; latest compile cancelled, nothing pending"
+                            } else if late {
+                                "lost-edit:retrigger-set-during-latest-compile-without-a-following-request"
+                            } else {
+                                "lost-edit:latest-compile-cancelled"
+                            };
+                            v.violations.push((sig.into(), format!("the compilation of the last request sent ({ver}) was cancelled and nothing is pending")));
+                        }
+                        Some(_) => {}
+                    }
+                }
+            }
+        }
+    }
+    // early returns of wait_for_parsing (recorded only; outside the statement)
+    for (i, e) in log.iter().enumerate() {
+        if e.1 == "wfp.break" {
+            // a request was dequeued but its compile had not begun
+            let pending = log[..i].iter().rposition(|x| x.1 == "worker.got");
+            let begun = log[..i].iter().rposition(|x| x.1 == "worker.compile_begin");
+            if let Some(p) = pending {
+                if begun.map(|b| b < p).unwrap_or(true) {
+                    v.early_returns += 1;
+                }
+            }
+        }
+    }
+    v
+}
+
+fn signature_of(out: &RunOut) -> u64 {
+    let s: String = out.log.iter().map(|e| format!("{}:{};", e.0, e.1)).collect();
+    hash64(s.as_bytes())
+}
+
+fn run_case(ctx_dir: &std::path::Path, script: &Script, seed: u64, res: &mut ShardResult) {
+    res.evaluations += 1;
+    let out = controlled_run(ctx_dir, script, seed, None);
+    absorb(ctx_dir, script, seed, out, res, true);
+}
+
+fn absorb(ctx_dir: &std::path::Path, script: &Script, seed: u64, out: RunOut, res: &mut ShardResult, confirm: bool) {
+    if let Some(d) = &out.diverged {
+        res.count("model_divergence_runs");
+        res.inconclusive(format!("scheduler model and real threads disagreed: {d}"));
+        return;
+    }
+    if !out.quiescent {
+        res.count("runs_without_quiescence");
+        res.inconclusive("the run did not reach a quiescent state within the watchdog");
+        return;
+    }
+    res.count("runs_reached_quiescence");
+    let v = check_log(&out);
+    res.add("compilations_observed", v.compilations);
+    res.add("cancellations_observed", v.cancellations);
+    res.add("waiters_parked_and_woken", v.woken);
+    res.add("wait_for_parsing_early_returns_recorded", v.early_returns);
+    res.add("events", out.log.len() as u64);
+    if out.probe_returned == Some(true) {
+        res.count("probe_waits_returned");
+    }
+    if out.switches >= 2 {
+        res.note_nontrivial(signature_of(&out));
+    }
+    res.max("max_events_in_run", out.log.len() as u64);
+    if res.samples.len() < 2 {
+        res.sample(json!({"script": script, "schedule_choices": out.choices, "events": out.log.iter().take(60).map(|e| format!("{} {} {}", e.0, e.1, e.2)).collect::<Vec<_>>()}));
+    }
+    for (sig, desc) in v.violations {
+        // confirm by replaying the recorded schedule twice: a scheduling artefact does not reproduce
+        let mut reproduced = 0;
+        if confirm {
+            for _ in 0..2 {
+                let again = controlled_run(ctx_dir, script, seed, Some(out.choices.clone()));
+                if again.diverged.is_none() && again.quiescent && check_log(&again).violations.iter().any(|(s, _)| *s == sig) {
+                    reproduced += 1;
+                }
+            }
+        } else {
+            reproduced = 2;
+        }
+        if reproduced == 2 {
+            res.violation(sig, desc, json!({"script": script, "seed": seed, "choices": out.choices, "log": out.log.iter().map(|e| format!("{} {} {}", e.0, e.1, e.2)).collect::<Vec<_>>()}));
+        } else {
+            res.count("unconfirmed_candidates");
+            res.inconclusive(format!("candidate `{sig}` did not reproduce under its recorded schedule ({reproduced}/2)"));
+        }
+    }
+}
+
+fn shard(ctx: &ShardCtx) -> ShardResult {
+    let mut res = ShardResult::default();
+    let dir = ctx.work();
+    let home = dir.join("home");
+    let tmp = dir.join("tmp");
+    std::fs::create_dir_all(&home).ok();
+    std::fs::create_dir_all(&tmp).ok();
+    std::env::set_var("HOME", &home);
+    std::env::set_var("TMPDIR", &tmp);
+    sway_types::verif_hooks::install(Some(Arc::new(callback)));
+    let mut i = ctx.first_index;
+    while ctx.time_left() {
+        let mut rng = ctx.rng(i);
+        let script = gen_script(&mut rng);
+        let seed: u64 = rng.gen();
+        ctx.begin_case(i, &format!("{script:?} seed {seed}"), &res);
+        run_case(&dir, &script, seed, &mut res);
+        ctx.end_case();
+        i += 1;
+    }
+    sway_types::verif_hooks::install(None);
+    res
+}
+
+fn replay(v: &Value) -> ShardResult {
+    let mut res = ShardResult::default();
+    let dir = work_dir("C24").join("replay");
+    clean_dir(&dir);
+    std::env::set_var("HOME", dir.join("home"));
+    std::env::set_var("TMPDIR", dir.join("tmp"));
+    std::fs::create_dir_all(dir.join("home")).ok();
+    std::fs::create_dir_all(dir.join("tmp")).ok();
+    sway_types::verif_hooks::install(Some(Arc::new(callback)));
+    let script: Script = match serde_json::from_value(v["script"].clone()) {
+        Ok(s) => s,
+        Err(e) => {
+            res.harness_fault = Some(format!("bad script: {e}"));
+            return res;
+        }
+    };
+    let seed = v["seed"].as_u64().unwrap_or(0);
+    let choices: Vec<usize> = serde_json::from_value(v["choices"].clone()).unwrap_or_default();
+    res.evaluations = 1;
+    let out = controlled_run(&dir, &script, seed, Some(choices));
+    absorb(&dir, &script, seed, out, &mut res, false);
+    sway_types::verif_hooks::install(None);
+    res
+}
+
+#[allow(dead_code)]
+fn unused(_: HashMap<u8, u8>) {}
